@@ -133,6 +133,7 @@ pub fn sleep(d: Duration) {
     if crate::in_sim() {
         if crate::sim::process_exited() && !std::thread::panicking() {
             // the process is gone: this thread dies here (no panic hook, no message)
+            crate::sim::count("threads_still_polling_at_process_exit", 1);
             std::panic::resume_unwind(Box::new(crate::sim::ProcessExit));
         }
         crate::sim::event("sleep", ns);
